@@ -40,6 +40,7 @@ func genMapCase(t *rapid.T) MapCase {
 func init() {
 	vk.Register("C04", "hist", runC04)
 	vk.Register("C04", "float", runC04Float)
+	vk.Register("C04", "str", runC04Str)
 }
 
 func TestC04Float(t *testing.T) {
@@ -50,6 +51,18 @@ func TestC04Float(t *testing.T) {
 		})
 		return FloatMapCase{Ops: rapid.SliceOfN(gop, 1, 30).Draw(t, "ops")}
 	}, runC04Float)
+}
+
+func TestC04Str(t *testing.T) {
+	h := vk.Start(t, "C04", "str")
+	vk.Rapid(h, t, func(t *rapid.T) StrMapCase {
+		gop := rapid.Custom(func(t *rapid.T) MOp {
+			return MOp{Kind: rapid.SampledFrom([]string{"set", "set", "set", "set", "del", "get", "seek", "last", "clear"}).Draw(t, "k"),
+				A: rapid.IntRange(0, len(strKeys)-1).Draw(t, "key"), B: rapid.IntRange(0, len(strKeys)-1).Draw(t, "val")}
+		})
+		return StrMapCase{Func: rapid.Bool().Draw(t, "func"), Zero: rapid.IntRange(0, 3).Draw(t, "zero") == 0,
+			Ops: rapid.SliceOfN(gop, 1, 30).Draw(t, "ops")}
+	}, runC04Str)
 }
 
 func TestC04Hist(t *testing.T) {
